@@ -306,6 +306,8 @@ def refract(n, nprime, S, r):
         Sprime, a length 3 vector containing the exitant direction cosines
 
     """
+    # batch of one for a single ray, as in reflect
+    S, r = np.atleast_2d(S, r)
     mu = n/nprime
     musq = mu * mu
     # r arrives as the gradient (Fx, Fy, 1); Snell's law needs the unit normal
